@@ -70,8 +70,13 @@ ElOpType(op, l, r) ==
         wn == MaxI2(l.narrowest.w, r.narrowest.w)
         dg == PolicyDigits(op, l.d, ElSigned(l), r.d, ElSigned(r))
     IN IntT(SetDigitsW(MaxI2(dg, wn - sg), sg), sg)
+\* +,-,*: both operands are cast to the result representation; / and % (since the fix of the narrowed divisor):
+\* both operands are cast to a representation that holds either (the one + would use), the quotient is cast back
 AsCodedElValue(op, l, lrep, a, r, rrep, b) ==
-    LET opT == ElOpType(op, l, r) IN CBin(op, CConv(TV(lrep, a), opT), CConv(TV(rrep, b), opT))
+    LET opT == ElOpType(op, l, r) IN
+    IF op \in {"div", "mod"}
+    THEN LET wT == ElOpType("add", l, r) IN CConv(CBin(op, CConv(TV(lrep, a), wT), CConv(TV(rrep, b), wT)), Promote(opT))
+    ELSE CBin(op, CConv(TV(lrep, a), opT), CConv(TV(rrep, b), opT))
 AsCodedElBin(e, i) ==
     LET l == AsElastic(i.lt)  r == AsElastic(i.rt)
         v == CConv(AsCodedElValue(i.op, l, AsIntT(InnerT(i.lt)), J(e.l), r, AsIntT(InnerT(i.rt)), J(e.r)), AsIntT(InnerT(i.res_t)))
